@@ -787,3 +787,80 @@ class FlatList(FnCheck):
     def post(self, ex, st0, st, outcome, b):
         if outcome[0] == 'exc':
             ex.oblige(st, 'never_raises', z3.BoolVal(False), info={'exc': repr(outcome[1])})
+
+
+import ast as _ast   # noqa: E402
+from pyvc.api import ScanCheck   # noqa: E402
+
+
+@register
+class NumberOfLinesIsRecomputed(ScanCheck):
+    id = 'C20.number_of_lines_is_computed_from_the_current_text'
+    prop = 'C20'
+    doc = ('the line count a NumberOfLines constraint is compared with (member n_o_l, read by _n_o_l_filter) is computed '
+           'for every candidate text of every request from the text it has NOW: _calc_number_of_lines is a function of '
+           'its string argument alone (one parameter, no attribute of it is read, no other name than builtins), '
+           'filter_localized_texts assigns text.n_o_l = _calc_number_of_lines(text.text) unconditionally for each text '
+           'of the candidate list before any filter reads it, and n_o_l is assigned nowhere else')
+
+    def scan(self, repo):
+        import builtins
+        mod = repo.module(LS)
+        fn = mod.functions.get('_calc_number_of_lines') if hasattr(mod, 'functions') else None
+        if fn is None:
+            fn = next((n for n in mod.tree.body if isinstance(n, _ast.FunctionDef) and n.name == '_calc_number_of_lines'), None)
+        out = []
+        ok = fn is not None and len(fn.args.args) == 1 and not fn.args.kwonlyargs and fn.args.vararg is None
+        if ok:
+            p = fn.args.args[0].arg
+            attrs = [_ast.unparse(a) for a in _ast.walk(fn) if isinstance(a, _ast.Attribute) and isinstance(a.value, _ast.Name)
+                     and a.value.id == p and a.attr not in ('split', 'splitlines', 'count')]
+            names = {x.id for x in _ast.walk(fn) if isinstance(x, _ast.Name) and isinstance(x.ctx, _ast.Load)}
+            foreign = sorted(x for x in names if x != p and not hasattr(builtins, x))
+            stores = [_ast.unparse(t) for s in _ast.walk(fn) if isinstance(s, (_ast.Assign, _ast.AugAssign, _ast.AnnAssign))
+                      for t in (s.targets if isinstance(s, _ast.Assign) else [s.target]) if isinstance(t, (_ast.Attribute, _ast.Subscript))]
+            ok = not attrs and not foreign and not stores
+        out.append(('line_count_is_a_function_of_the_string', bool(ok), {}))
+        # assignments of n_o_l in the module
+        sites = []
+        for n in _ast.walk(mod.tree):
+            if isinstance(n, (_ast.Assign, _ast.AugAssign, _ast.AnnAssign)):
+                for t in (n.targets if isinstance(n, _ast.Assign) else [n.target]):
+                    if isinstance(t, _ast.Attribute) and t.attr == 'n_o_l':
+                        sites.append((_ast.unparse(t), _ast.unparse(n.value) if n.value is not None else ''))
+            if isinstance(n, _ast.Call) and _ast.unparse(n.func) == 'setattr' and len(n.args) >= 2 and 'n_o_l' in _ast.unparse(n.args[1]):
+                sites.append(('setattr', _ast.unparse(n)))
+        out.append(('one_assignment_from_the_current_text', sites == [('text.n_o_l', '_calc_number_of_lines(text.text)')], {'sites': str(sites)}))
+        # that assignment is the unconditional first statement of a loop over `texts` in filter_localized_texts
+        flt = mod.classes['LocalizationStorage']
+        f = next((m for m in flt.body if isinstance(m, _ast.FunctionDef) and m.name == 'filter_localized_texts'), None)
+        loop_ok = False
+        if f is not None:
+            for n in _ast.walk(f):
+                if isinstance(n, _ast.For) and _ast.unparse(n.iter) == 'texts' and _ast.unparse(n.target) == 'text' and n.body \
+                        and _ast.unparse(n.body[0]) == 'text.n_o_l = _calc_number_of_lines(text.text)':
+                    loop_ok = True
+        out.append(('computed_for_every_candidate_of_the_request', loop_ok, {}))
+        return out
+
+
+@register
+class CalcNumberOfLines(FnCheck):
+    id = 'C20.calc_number_of_lines'
+    prop = 'C20'
+    target = f'{LS}:_calc_number_of_lines'
+    doc = '_calc_number_of_lines(text) == number of newline-separated segments of text (len(text.split("\\n")))'
+
+    def setup(self, b):
+        self.t = b.str('text')
+        return None, [self.t], {}
+
+    def post(self, ex, st0, st, outcome, b):
+        if outcome[0] == 'exc':
+            ex.oblige(st, 'never_raises', z3.BoolVal(False), info={'exc': repr(outcome[1])})
+            return
+        r = ex.concrete_kind(st, outcome[1], ('int',))
+        from pyvc import models as _m
+        split = _m.uf('str_split', StrS, StrS, SeqVal)
+        ex.oblige(st, 'is_the_number_of_newline_separated_segments',
+                  (r.e == z3.Length(split(self.t.e, z3.StringVal('\n')))) if r.kind == 'int' else z3.BoolVal(False))
